@@ -35,6 +35,9 @@ from .values import (
 _CMP = {"Lt": "<", "LtE": "<=", "Gt": ">", "GtE": ">=", "Eq": "==", "NotEq": "!="}
 
 
+_MODULE_ALIASES = {"exc": "passlib/exc.py", "uh": "passlib/utils/handlers.py", "ifc": "passlib/ifc.py"}
+
+
 def _pow2_exp(m):
     """k if m == 2**k else None"""
     if isinstance(m, int) and m > 0 and m & (m - 1) == 0:
@@ -218,6 +221,8 @@ class OpsMixin:
             return exc_class(name)
         except Unsupported:
             pass
+        if name in _MODULE_ALIASES:
+            return SModule(name, {"__file__": _MODULE_ALIASES[name]})
         raise Unsupported(f"unresolved name '{name}' (line {self.lineno})")
 
     def module_level(self, relpath, name):
@@ -895,6 +900,13 @@ class OpsMixin:
                 return obj.attrs[attr]
             if obj.name in ("exc", "passlib.exc"):
                 return exc_class(attr)
+            if attr in _MODULE_ALIASES and obj.name in ("uh",):
+                return SModule(attr, {"__file__": _MODULE_ALIASES[attr]})
+            f = obj.attrs.get("__file__")
+            if f:
+                val = self.module_level(f, attr)
+                if val is not None:
+                    return val[0]
             raise Unsupported(f"module attribute {obj.name}.{attr}")
         if isinstance(obj, SStub) and attr in obj.attrs:
             return obj.attrs[attr]
@@ -945,7 +957,7 @@ class OpsMixin:
         info = extract.find(target)
         if target in self.registry and target != self.c.target and target not in self.c.inline:
             callee = self.contract_callee(self.registry[target], self_obj=obj if "staticmethod" not in decos else None)
-            if "property" in decos or "memoized_property" in decos or "classproperty" in decos:
+            if {"property", "memoized_property", "classproperty", "cached_property"} & set(decos):
                 return self.call_value(callee, [], {})
             return callee
         if "staticmethod" in decos:
@@ -954,7 +966,7 @@ class OpsMixin:
         if "classmethod" in decos or "classproperty" in decos:
             self_obj = obj if obj.is_class else self.type_of_obj(obj)
         clo = SClosure(node, self.genv, info=info, self_obj=self_obj, name=attr, owner=owner)
-        if "property" in decos or "memoized_property" in decos or "classproperty" in decos:
+        if {"property", "memoized_property", "classproperty", "cached_property"} & set(decos):
             return self.call_value(clo, [], {})
         return clo
 
@@ -1012,8 +1024,9 @@ class OpsMixin:
                 kwargs.update(d.items)
             else:
                 kwargs[kw.arg] = self.eval(kw.value, env)
-        fname, info, selfobj = self.func_stack[-1]
-        owner = self.func_stack[-1][3] if len(self.func_stack[-1]) > 3 else None
+        top = self.func_stack[-1]
+        selfobj = top[2]
+        owner = top[3] if len(top) > 3 else None
         if hook is not None:
             return self.call_value(hook, ([selfobj] if selfobj is not None else []) + args, kwargs)
         if selfobj is None or owner is None:
